@@ -1280,99 +1280,102 @@ func ambiguous(m setMark, a, b int64) bool {
 	return a-m.b-margin <= m.ttl && m.ttl <= b-m.a+margin
 }
 
+// runCache: Set/Get sequences on a real backend.  miniredis: simulated, exact clock.  In-memory cache: real time on
+// the monotonic clock; a Set is recorded at the instant it RETURNED, a Get at the instant it was ISSUED, so the model
+// entry expires no earlier and the model probe happens no later than the real ones: whatever the load, a real hit
+// the model does not allow is a hit at or after set-return + ttl.  (A late or early MISS is never a disagreement.)
 func (e *env) runCache(c *c10Case) ([]opObs, string, bool) {
-	var (
-		obs  []opObs
-		coq  string
-		ambi bool
-	)
+	be := e.newBackend(c.Backend)
+	ctx := context.Background()
+	base := time.Now()
+	sim := base.UnixNano()
+	val := int64(0)
 
-	for try := 0; try < 6; try++ {
-		be := e.newBackend(c.Backend)
-		ctx := context.Background()
-		base := time.Now()
-		sim := base.UnixNano()
-		marks := map[int]setMark{}
-		val := int64(0)
-
-		var items []string
-
-		obs, ambi = nil, false
-
-		for _, op := range c.Ops {
-			be.advance(time.Duration(op.Adv))
-			sim += op.Adv
-
-			a := sim
-			if be.mr == nil {
-				a = base.UnixNano() + int64(time.Since(base))
-			}
-
-			key := fmt.Sprintf("key-%d", op.Key)
-
-			if op.Op == "set" {
-				val++
-				err := be.c.Set(ctx, key, []byte(strconv.FormatInt(val, 10)), time.Duration(op.TTL))
-
-				b := a
-				if be.mr == nil {
-					b = base.UnixNano() + int64(time.Since(base))
-				}
-
-				if err == nil {
-					if op.TTL == -2 && be.mr == nil {
-						if m, ok := marks[op.Key]; ok {
-							marks[op.Key] = setMark{a: m.a, b: m.b, ttl: m.ttl}
-						} else {
-							marks[op.Key] = setMark{a: a, b: b, ttl: 0}
-						}
-					} else {
-						marks[op.Key] = setMark{a: a, b: b, ttl: op.TTL}
-					}
-				}
-
-				obs = append(obs, opObs{T: a, OK: err == nil})
-				items = append(items, vf.CoqApp("OSet", vf.CoqZ(a), vf.CoqZ(int64(op.Key)), vf.CoqZ(val), vf.CoqZ(op.TTL), vf.CoqBool(err == nil)))
-
-				continue
-			}
-
-			v, err := be.c.Get(ctx, key)
-
-			b := a
-			if be.mr == nil {
-				b = base.UnixNano() + int64(time.Since(base))
-			}
-
-			if m, ok := marks[op.Key]; ok && be.mr == nil && ambiguous(m, a, b) {
-				ambi = true
-			}
-
-			var got *int64
-
-			if err == nil {
-				n, perr := strconv.ParseInt(string(v), 10, 64)
-				if perr != nil {
-					panic(fmt.Sprintf("cache returned %q", v))
-				}
-
-				got = p64(n)
-			}
-
-			obs = append(obs, opObs{T: a, Val: got})
-			items = append(items, vf.CoqApp("OGet", vf.CoqZ(a), vf.CoqZ(int64(op.Key)), optZ(got)))
+	clock := func() int64 {
+		if be.mr != nil {
+			return sim
 		}
 
-		be.close()
-
-		coq = vf.CoqApp("CCache", coqBackend(c.Backend), vf.CoqList(items))
-
-		if !ambi {
-			break
-		}
+		return base.UnixNano() + int64(time.Since(base))
 	}
 
-	return obs, coq, ambi
+	var (
+		obs   []opObs
+		items []string
+	)
+
+	for _, op := range c.Ops {
+		be.advance(time.Duration(op.Adv))
+		sim += op.Adv
+
+		key := fmt.Sprintf("key-%d", op.Key)
+
+		if op.Op == "set" {
+			val++
+			err := be.c.Set(ctx, key, []byte(strconv.FormatInt(val, 10)), time.Duration(op.TTL))
+			t := clock() // after the Set returned
+
+			obs = append(obs, opObs{T: t, OK: err == nil})
+			items = append(items, vf.CoqApp("OSet", vf.CoqZ(t), vf.CoqZ(int64(op.Key)), vf.CoqZ(val), vf.CoqZ(op.TTL), vf.CoqBool(err == nil)))
+
+			continue
+		}
+
+		t := clock() // before the Get is issued
+		v, err := be.c.Get(ctx, key)
+
+		var got *int64
+
+		if err == nil {
+			n, perr := strconv.ParseInt(string(v), 10, 64)
+			if perr != nil {
+				panic(fmt.Sprintf("cache returned %q", v))
+			}
+
+			got = p64(n)
+		}
+
+		obs = append(obs, opObs{T: t, Val: got})
+		items = append(items, vf.CoqApp("OGet", vf.CoqZ(t), vf.CoqZ(int64(op.Key)), optZ(got)))
+	}
+
+	be.close()
+
+	return obs, vf.CoqApp("CCache", coqBackend(c.Backend), vf.CoqList(items)), false
+}
+
+// genBurst: many entries with the same ttl (200 ms .. 2 s) stored in one go and all probed just after the last
+// Set's return + ttl + 3 ms: none may be answered.  Catches an expiry that is applied late or fuzzily (e.g. a random
+// spread of a few percent of the ttl) -- several dozen entries, because such a spread is random.
+func genBurst(r *vf.Rand) c10Case {
+	c := c10Case{Kind: "cache", Backend: "mem"}
+	ttl := vf.Pick(r, []int64{200 * msec, 300 * msec, 500 * msec, sec, 2 * sec})
+	n := r.Range(40, 60)
+
+	for k := 1; k <= n; k++ {
+		c.Ops = append(c.Ops, c10Op{Op: "set", Key: k, TTL: ttl})
+	}
+
+	for k := 1; k <= n; k++ {
+		op := c10Op{Op: "get", Key: k}
+		if k == 1 {
+			op.Adv = ttl + 3*msec
+		}
+
+		c.Ops = append(c.Ops, op)
+	}
+
+	// and once more a little later (an entry whose lifetime was stretched by up to 5 % is still there)
+	for k := 1; k <= n; k += 3 {
+		op := c10Op{Op: "get", Key: k}
+		if k == 1 {
+			op.Adv = ttl / 50
+		}
+
+		c.Ops = append(c.Ops, op)
+	}
+
+	return c
 }
 
 // ---------------------------------------------------------------- kind hist
@@ -2110,6 +2113,8 @@ func corpus() []c10Case {
 		{Kind: "exec", Mech: "generic", Conf: p64(30 * sec), RuleOther: true},
 		{Kind: "exec", Mech: "ctx", Conf: nil, RuleOther: true},
 		{Kind: "hist", Mech: "remote", Backend: "redis", Conf: p64(sec), RuleOther: true, Evs: []c10Ev{{Key: 1}, {Key: 1, Adv: 150 * msec}}},
+		genBurst(vf.NewRand(1)),
+		genBurst(vf.NewRand(2)),
 		{Kind: "cache", Backend: "redis", Ops: []c10Op{{Op: "set", Key: 1, TTL: 0}, {Op: "get", Key: 1}, {Op: "set", Key: 1, TTL: 999_999}, {Op: "get", Key: 1}}},
 		{Kind: "cache", Backend: "redis", Ops: []c10Op{{Op: "set", Key: 1, TTL: 50 * msec}, {Op: "get", Key: 1, Adv: 49 * msec}, {Op: "get", Key: 1, Adv: msec}}},
 		{Kind: "hist", Mech: "remote", Backend: "redis", Conf: p64(sec), Evs: []c10Ev{{Key: 1}, {Key: 1, Adv: 150 * msec}, {Key: 1, Adv: 1450 * msec}}},
@@ -2311,6 +2316,9 @@ func TestVerifC10(t *testing.T) {
 			}
 
 			c = genCache(r, be)
+			if i%200 == 15 {
+				c = genBurst(r) // six per 1200 cases; they sleep 0.2 .. 2 s, in parallel
+			}
 		case k < 19:
 			be := "redis"
 			if slow > 0 && r.Chance(20) {
